@@ -3,7 +3,7 @@
                                                page bodies that need decompression (phase 1)
      (fmt_validate STRICT #file TABLE)      -> (ok) | (bad why) | (uns why)
      (fmt_decode STRICT #file TABLE)        -> (ok (LEAF ...) (RG ...)) | (bad why) | (uns why)
-         LEAF = (#name TYPE TLEN MAXDEF (CONV)? (LOGICAL-MEMBER UNIT)?)   RG = (COLUMN ...)   COLUMN = (CELL ...)
+         LEAF = (#name TYPE TLEN MAXDEF (CONV)? (LOGICAL-MEMBER UNIT)? (SCALE)? (PRECISION)?)   RG = (COLUMN ...)   COLUMN = (CELL ...)
          CELL = () NULL | xN numeric bit pattern | #bytes
      TABLE = ((#KEY #uncompressed) ...), KEY = codec byte followed by the compressed bytes, instantiates `decompress` (phase 2; trusted: cramjam)
      STRICT = 1: a bit-packed run must be present in full; 0: only the bytes of the values needed. *)
@@ -34,7 +34,8 @@ Definition s_leaf (l : leaf) : sx :=
       match lf_logical l with
       | Some v => match logical_summary v with Some (a, b) => SL [sN a; sN b] | None => SL [] end
       | None => SL []
-      end].
+      end;
+      sopt SZ (lf_scale l); sopt SZ (lf_prec l)].
 
 Definition h_fmt_pages (a : list sx) : sx :=
   match a with
@@ -69,7 +70,7 @@ Definition h_fmt_decode (a : list sx) : sx :=
      (fmt_encode LFILE TABLE)    -> (ok #file)                  TABLE = ((#KEY #compressed) ...), KEY = codec byte followed by the raw bytes
      (fmt_table LFILE)           -> (ok (LEAF ...) (RG ...)) | (none)     the table the layout denotes
    LFILE = ((LEAF ...) (RG ...) (#created_by)?)
-     LEAF  = (#name TYPE TLEN OPTIONAL (CONV)? (LOGICAL)?)      LOGICAL = thrift value tree (Cmd_Thrift)
+     LEAF  = (#name TYPE TLEN OPTIONAL (CONV)? (LOGICAL)? (SCALE)? (PRECISION)?)      LOGICAL = thrift value tree (Cmd_Thrift)
      RG    = (CHUNK ...)    CHUNK = (CODEC STATS (ITEM ...))
      ITEM  = (dict ENC (VALUE ...)) | (page V2 NVALS (RUN ...) STORE (ISCOMP)? #trail)
      RUN   = (r COUNT V) | (b (V ...))
@@ -130,14 +131,15 @@ Definition as_chunk (s : sx) : option lchunk :=
 
 Definition as_lleaf (s : sx) : option lleaf :=
   match s with
-  | SL [SB nm; ty; tl; op; cv; lg] =>
-    match as_Z ty, as_N tl, as_bool op, as_opt as_Z cv, as_opt Cmd_Thrift.tv_of_sx lg with
-    | Some ty, Some tl, Some op, Some cv, Some lg =>
+  | SL [SB nm; ty; tl; op; cv; lg; sc; pr] =>
+    match as_Z ty, as_N tl, as_bool op, as_opt as_Z cv, as_opt Cmd_Thrift.tv_of_sx lg, as_opt as_Z sc, as_opt as_Z pr with
+    | Some ty, Some tl, Some op, Some cv, Some lg, Some sc, Some pr =>
       match ptype_of_id ty with
-      | Some t => Some {| ll_name := nm; ll_type := t; ll_tlen := tl; ll_optional := op; ll_conv := cv; ll_logical := lg |}
+      | Some t => Some {| ll_name := nm; ll_type := t; ll_tlen := tl; ll_optional := op; ll_conv := cv; ll_logical := lg;
+                          ll_scale := sc; ll_prec := pr |}
       | None => None
       end
-    | _, _, _, _, _ => None
+    | _, _, _, _, _, _, _ => None
     end
   | _ => None
   end.
